@@ -581,10 +581,17 @@ func c16long(rep *vh.Report) {
 		total = 68 * time.Second // two renewals
 	}
 	starts := map[byte]time.Duration{7: 0, 8: 2 * time.Second, 9: 5 * time.Second}
+	if vh.Thorough() {
+		starts[10] = 0 // a sender that falls silent between 1 s and 45 s: renewed at 45 s, and then not again before 75 s
+	}
 	start := time.Now()
 	for time.Since(start) < total {
+		el := time.Since(start)
 		for sys, t0 := range starts {
-			if time.Since(start) >= t0 {
+			if sys == 10 && el > time.Second && el < 45*time.Second {
+				continue
+			}
+			if el >= t0 {
 				tr.Feed(hbFrame(sys, 7, 3, 0))
 			}
 		}
